@@ -51,6 +51,19 @@ CATEGORIES_8 = """  * change 1: a *plausible optimisation* - a result is cached 
 Both changes ADD or RESTRUCTURE code (roughly 5-30 changed lines); neither is a one-token edit of an existing comparison or constant.
 Do not use `git stash` (the stash is shared between worktrees); to get back to the clean tree use `git checkout -- .`.
 """
+CATEGORIES_10 = """  * change 1: an INCORRECT optimisation that looks exactly like a correct one - a cache / memo keyed by almost everything the value
+    depends on (one input missing: strand, chromosome, an option, the object it belongs to), or living slightly too long (per object
+    where per call is needed, per process where per object is needed, surviving a reset), a fast path whose condition is almost but not
+    quite sufficient for the general path to give the same result, a value hoisted out of a loop that is not invariant in it, a memo of
+    something "constant" that one rarely used code path does change;
+  * change 2: an INCORRECT helper extraction or generalisation that looks exactly like a correct one - a shared helper (creating /
+    removing a marker file, a key or formatting function, a small codec, a lookup) introduced for several call sites one of which
+    needed something slightly different (another order of operations, one more argument, the un-normalised value), a new defaulted
+    parameter whose default is right for all callers but one, a literal table replaced by a generated one that differs in one entry, an
+    explicit open/close pair turned into a context manager that closes (or flushes) at a different moment than a reader relies on.
+Both changes must look like careful, well-commented maintenance work (5-40 changed lines) and ordinary toy-data runs must look normal.
+Do not use `git stash` (the stash is shared between worktrees); to get back to the clean tree use `git checkout -- .`.
+"""
 for pid in CLAIMED:
     wt = "/tmp/seed%s_%s" % (rnd, pid)
     if not os.path.exists(wt):
@@ -81,7 +94,7 @@ ANCHORS (files / mechanisms): {json.dumps(p['anchors']['files'])} ; {json.dumps(
 YOUR TASK: produce TWO independent changes to the project, each of which BREAKS this property while the project still compiles and the
 test suite still gives exactly "9 failed, 386 passed". They model realistic maintenance mistakes, not sabotage: each should read like a
 plausible commit (an optimisation, a modernised idiom, a clean-up, support for a new case) whose author did not notice the consequence.
-""" + (CATEGORIES_8 if int(rnd) >= 8 else CATEGORIES_6 if int(rnd) >= 6 else CATEGORIES_4) + f"""
+""" + (CATEGORIES_10 if int(rnd) >= 10 else CATEGORIES_8 if int(rnd) >= 8 else CATEGORIES_6 if int(rnd) >= 6 else CATEGORIES_4) + f"""
 Earlier changes already exist in these functions, so put yours ELSEWHERE (other functions, other mechanisms of the property): {', '.join(touched(pid)) or '(none)'}.
 Each change should be small (1-25 changed lines), and should need something specific to show: a particular input shape, option,
 number of threads/experiments, kill point, or sequence of runs - ordinary toy-data runs should look normal.
